@@ -43,12 +43,13 @@ def _parse_v4(s):
     parts = s.split('.')
     if len(parts) != 4:
         raise AddrFormatError('invalid IPv4 address: %r' % (s,))
-    val = 0
+    octs = []
     for p in parts:
         if len(p) == 0 or len(p) > 3:
             raise AddrFormatError('invalid IPv4 address')
         for ch in p:
-            if ch < '0' or ch > '9':
+            o_ = ord(ch)   # (ord comparison: string '<' on symbolic chars forks needlessly)
+            if o_ < 48 or o_ > 57:
                 raise AddrFormatError('invalid IPv4 address')
         if len(p) > 1 and p[0] == '0':
             # inet_pton rejects leading zeros
@@ -56,16 +57,41 @@ def _parse_v4(s):
         o = int(p)
         if o > 255:
             raise AddrFormatError('invalid IPv4 address')
+        octs.append(o)
+    return _mk_int(octs), tuple(octs)
+
+
+def _mk_int(octs):
+    try:
+        from vf.engine.ch_ext import make_octet_int
+    except Exception:  # pragma: no cover
+        make_octet_int = None
+    if make_octet_int is not None:
+        return make_octet_int(list(octs))
+    val = 0
+    for o in octs:
         val = val * 256 + o
     return val
+
+
+def _known_octets(v):
+    try:
+        from vf.engine.ch_ext import octets_of
+    except Exception:  # pragma: no cover
+        return None
+    o = octets_of(v)
+    if o is not None and len(o) == 4:
+        return tuple(o)
+    return None
 
 
 class SymIPv4(object):
     """IPAddress with a symbolic 32-bit value."""
     version = 4
 
-    def __init__(self, value):
+    def __init__(self, value, octets=None):
         self._value = value
+        self._oct = octets if octets is not None else _known_octets(value)
 
     @property
     def value(self):
@@ -82,16 +108,40 @@ class SymIPv4(object):
 
     @property
     def packed(self):
+        if self._oct is not None:
+            return bytes(list(self._oct))
         return struct.pack('!I', self._value)
+
+    def _octets(self):
+        """the four octets of the value.  For a symbolic value: four fresh solver
+        variables o0..o3 in 0..255 with  value == o0*2^24 + o1*2^16 + o2*2^8 + o3
+        (unique decomposition; linear, so z3 does not have to reason about nested
+        div/mod)."""
+        if self._oct is None:
+            v = self._value
+            made = None
+            with NoTracing():
+                if isinstance(v, CrossHairValue) and hasattr(v, 'var'):
+                    import z3
+                    from crosshair.statespace import context_statespace
+                    from crosshair.libimpl.builtinslib import SymbolicInt
+                    space = context_statespace()
+                    names = [z3.Int('vfoct%d_%s' % (i, space.uniq())) for i in range(4)]
+                    for o in names:
+                        space.add(z3.And(o >= 0, o < 256))
+                    space.add(v.var == ((names[0] * 256 + names[1]) * 256 + names[2]) * 256 + names[3])
+                    made = tuple(SymbolicInt(o) for o in names)
+            if made is None:
+                made = (v // 16777216, (v // 65536) % 256, (v // 256) % 256, v % 256)
+            self._oct = made
+        return self._oct
 
     @property
     def words(self):
-        v = self._value
-        return (v // 16777216, (v // 65536) % 256, (v // 256) % 256, v % 256)
+        return self._octets()
 
     def __str__(self):
-        v = self._value
-        return '%s.%s.%s.%s' % (v // 16777216, (v // 65536) % 256, (v // 256) % 256, v % 256)
+        return '%s.%s.%s.%s' % self._octets()
 
     def __repr__(self):
         return "IPAddress('%s')" % self
@@ -119,7 +169,8 @@ def IPAddress(addr, version=None, flags=0):
     if is_str:
         if ':' in addr:
             return _real.IPAddress(deep_realize(addr))
-        return SymIPv4(_parse_v4(addr))
+        v_, o_ = _parse_v4(addr)
+        return SymIPv4(v_, o_)
     # symbolic integer
     if version == 6:
         return _real.IPAddress(deep_realize(addr), version=6)
@@ -129,8 +180,9 @@ def IPAddress(addr, version=None, flags=0):
 
 
 class SymIPv4Network(object):
-    def __init__(self, value, prefixlen):
-        self._value, self.prefixlen = value, prefixlen
+    def __init__(self, vo, prefixlen):
+        self._value, self._oct = vo
+        self.prefixlen = prefixlen
 
     @property
     def value(self):
@@ -138,12 +190,12 @@ class SymIPv4Network(object):
 
     @property
     def ip(self):
-        return SymIPv4(self._value)
+        return SymIPv4(self._value, self._oct)
 
     version = 4
 
     def __str__(self):
-        return '%s/%s' % (SymIPv4(self._value), self.prefixlen)
+        return '%s/%s' % (SymIPv4(self._value, self._oct), self.prefixlen)
 
 
 def IPNetwork(addr, version=None, flags=0):
@@ -160,7 +212,8 @@ def IPNetwork(addr, version=None, flags=0):
     if len(plen_s) == 0 or len(plen_s) > 2:
         return _real.IPNetwork(deep_realize(addr))
     for ch in plen_s:
-        if ch < '0' or ch > '9':
+        o_ = ord(ch)
+        if o_ < 48 or o_ > 57:
             return _real.IPNetwork(deep_realize(addr))
     plen = int(plen_s)
     if plen > 32:
